@@ -18,6 +18,8 @@ def _make_history(profile, tid, s, nv, steps):
         return history.decl_history(tid, s, steps)
     if profile == 'stream':
         return history.stream_history(tid, s, nv, steps, reorder_between=(tid % 3 == 2))
+    if profile == 'many_held':
+        return history.many_held_trace(tid, s, nfun=steps, nvars=nv)
     if profile == 'sibling':
         return history.sibling_history(tid, s, nv, steps)
     if profile == 'decl_gap':
